@@ -89,7 +89,8 @@ inline void gen_prime(mpz_ptr r, unsigned bits) {
 // p = k q + 1, both prime, |q| = qbits, |p| = pbits, g of order q
 inline Grp gen_group(unsigned pbits, unsigned qbits) {
 	Grp G; G.pbits = pbits; G.qbits = qbits;
-	for (;;) {
+	for (unsigned outer = 0;; outer++) {
+		if (outer > 300) { fprintf(stderr, "gen_group(%u,%u): no such group found\n", pbits, qbits); exit(3); }
 		gen_prime(G.q, qbits);
 		bool found = false;
 		for (int tries = 0; tries < 4000 && !found; tries++) {
